@@ -3,7 +3,8 @@ import CovfieModel.Model.NdMap
 import CovfieModel.Model.Convert
 /-! Driver for C05: the storage a layout conversion produces, computed with `Covfie.convertA` (tabulated form of
     `Covfie.convert`, see `C05.convertA_get`).  A field is described by its extents; the value at coordinate `c` is the
-    cell id `1 + rowmajor(c)` (the harness stores `4*id + q` in component `q`); value-initialised cells have id 0.
+    cell id `1 + rowmajor(c)` (the harness stores `4*id + q` in component `q`; every seventh cell holds -0.0 throughout and has
+    id 2^62); value-initialised cells have id 0.
       conv <L1> <L2> | s1..sN      -> `len1 h1 len2 h2 lenb hb`   (source storage in L1, target storage in L2 read from the
                                        source *through L1*, storage converted back to L1 read through L2)
       convfull <L1> <L2> | s1..sN  -> the same three storages cell by cell: `len1 ids.. ; len2 ids.. ; lenb ids..`
@@ -26,7 +27,8 @@ def fnv (a : Array Nat) : UInt64 :=
 def three (l1 l2 : String) (sz : List Nat) : Option (Array Nat × Array Nat × Array Nat) := do
   let (i1, n1) ← idxOf l1 sz
   let (i2, n2) ← idxOf l2 sz
-  let orig : List Nat → Nat := fun c => 1 + stridedIdx sz c
+  -- every seventh cell holds -0.0 in all components (id 2^62): a conversion carries the sign of zero
+  let orig : List Nat → Nat := fun c => if stridedIdx sz c % 7 = 3 then 2^62 else 1 + stridedIdx sz c
   let a1 := convertA i1 sz n1 0 orig
   let a2 := convertA i2 sz n2 0 (fun c => a1[i1 c]?.getD 0)
   let ab := convertA i1 sz n1 0 (fun c => a2[i2 c]?.getD 0)
